@@ -135,9 +135,17 @@ fn hair_line_rgn(points: &[Point], clip: Option<&ScreenIntRect>, blitter: &mut d
             #[allow(clippy::precedence)]
             let mut start_x = fdot6::to_fdot16(x0) + (slope * ((32 - y0) & 63) >> 6);
 
+            // Same as `max_y` above: a line that touches the right edge of the clip
+            // can produce `start_x` equal to the image width.
+            let max_x = if let Some(clip_bounds) = clip_bounds {
+                fdot16::from_f32(clip_bounds.right())
+            } else {
+                i32::MAX
+            };
+
             debug_assert!(iy0 < iy1);
             loop {
-                if start_x >= 0 && iy0 >= 0 {
+                if start_x >= 0 && iy0 >= 0 && start_x < max_x {
                     blitter.blit_h((start_x >> 16) as u32, iy0 as u32, LENGTH_U32_ONE);
                 }
 
